@@ -388,3 +388,17 @@ def s2_trace_extract():
     if bad:
         return f"tracer self-check failed for {bad} (printed expression != what the Python function computes)"
     return None
+
+
+def s2_trace_diag():
+    """PRE_LEAN hook of C13: re-trace stats._scatter_matrix (two grains, three axes), symmetry_pgr, coaxial_index, bingham_average and
+    finite_strain with the LAPACK calls replaced by a recording shim that returns symbolic eigen-data, and rewrite
+    lean/Generated/TracedDiag.lean (bridge theorems: lean/Bridge/Diag.lean)."""
+    from .trace import tracer
+
+    traced = tracer.trace_diag()
+    tracer.emit_diag(traced)
+    bad = tracer.selfcheck_diag(traced)
+    if bad:
+        return f"tracer self-check failed for {bad} (printed expression != what the Python function computes)"
+    return None
